@@ -634,4 +634,92 @@ def skipLines (tbl : Option (List (Nat × Nat))) (bs : List Byte) (n : Nat) : Sr
       | Option.none => (0, n)
     (Src.seek bs p.1).skip p.2
 
+/-! ## 9. from the track specification to the document sets (`TrackSpecificationReader._create_corpora`)
+
+A setting of the track file is `none` when its key is absent.  `_r(spec, key, mandatory=False, default_value=d)`
+returns the value under the key whenever the key is there - also `false` - and `d` only when it is absent. -/
+
+/-- a document set as the track file writes it -/
+structure DocSpec (α : Type) where
+  lines : List α
+  numDocs : Nat
+  withMeta : Option Bool          -- "includes-action-and-meta-data" of the document set
+  targetIndex : Option Nat        -- "target-index" of the document set
+  targetDataStream : Option Nat   -- "target-data-stream" of the document set
+
+/-- a corpus as the track file writes it: defaults on corpus level, then the document sets -/
+structure CorpusSpec (α : Type) where
+  withMeta : Option Bool
+  targetIndex : Option Nat
+  targetDataStream : Option Nat
+  documents : List (DocSpec α)
+
+/-- `_r(.., mandatory=False, default_value=d)` -/
+def rDefault {β : Type} (v : Option β) (d : β) : β :=
+  match v with
+  | Option.some x => x
+  | Option.none => d
+
+/-- `includes_action_and_meta_data` of a document set: its own setting, else the corpus', else `False` -/
+def DocSpec.declared {α : Type} (c : CorpusSpec α) (d : DocSpec α) : Bool :=
+  rDefault d.withMeta (rDefault c.withMeta false)
+
+/-- `corpus_target_idx` / `corpus_target_ds`: with exactly one declared index (data stream) it is the default -/
+def corpusTarget (declaredNames : List Nat) (own : Option Nat) : Option Nat :=
+  match declaredNames with
+  | [] => Option.none
+  | [x] => Option.some (rDefault own x)
+  | _ => own
+
+/-- `(target_idx, target_ds)` of a document set without action lines; `none` = `TrackSyntaxError` -/
+def docTargets {α : Type} (indices streams : List Nat) (c : CorpusSpec α) (d : DocSpec α) : Option (Option Nat × Option Nat) :=
+  let cIdx := corpusTarget indices c.targetIndex
+  let cDs := corpusTarget streams c.targetDataStream
+  if !streams.isEmpty && cDs.isNone && d.targetDataStream.isNone then Option.none     -- mandatory element missing
+  else
+    let ds := match d.targetDataStream with | Option.some x => Option.some x | Option.none => cDs
+    if ds.isSome && !indices.isEmpty then Option.none                                  -- data stream target with indices
+    else if !indices.isEmpty && cIdx.isNone && d.targetIndex.isNone then Option.none  -- mandatory element missing
+    else
+      let idx := match d.targetIndex with | Option.some x => Option.some x | Option.none => cIdx
+      if idx.isSome && !streams.isEmpty then Option.none                               -- index target with data streams
+      else if idx.isNone && ds.isNone then Option.none                                 -- "a target-… is required"
+      else Option.some (idx, ds)
+
+/-- one `track.Documents(...)` of `_create_corpora` -/
+def resolveDoc {α : Type} (indices streams : List Nat) (c : CorpusSpec α) (d : DocSpec α) : Option (DocSet α) :=
+  if DocSpec.declared c d then Option.some ⟨d.lines, d.numDocs, true, false⟩
+  else
+    match docTargets indices streams c d with
+    | Option.none => Option.none
+    | Option.some t => Option.some ⟨d.lines, d.numDocs, false, t.1.isNone⟩
+
+def resolveDocs {α : Type} (indices streams : List Nat) (c : CorpusSpec α) : List (DocSpec α) → Option (Corpus α)
+  | [] => Option.some []
+  | d :: ds =>
+    match resolveDoc indices streams c d with
+    | Option.none => Option.none
+    | Option.some x =>
+      match resolveDocs indices streams c ds with
+      | Option.none => Option.none
+      | Option.some xs => Option.some (x :: xs)
+
+def resolveAll {α : Type} (indices streams : List Nat) : List (CorpusSpec α) → Option (List (Corpus α))
+  | [] => Option.some []
+  | c :: cs =>
+    match resolveDocs indices streams c c.documents with
+    | Option.none => Option.none
+    | Option.some x =>
+      match resolveAll indices streams cs with
+      | Option.none => Option.none
+      | Option.some xs => Option.some (x :: xs)
+
+/-- `TrackSpecificationReader._create_corpora(corpora_specs, indices, data_streams)`; `none` = `TrackSyntaxError` -/
+def resolveCorpora {α : Type} (indices streams : List Nat) (specs : List (CorpusSpec α)) : Option (List (Corpus α)) :=
+  if !indices.isEmpty && !streams.isEmpty then Option.none else resolveAll indices streams specs
+
+/-- NOT the code: the document-level setting and the corpus-level default joined by truthiness (`doc or corpus`) -/
+def DocSpec.declaredOr {α : Type} (c : CorpusSpec α) (d : DocSpec α) : Bool :=
+  rDefault d.withMeta false || rDefault c.withMeta false
+
 end Bulk
